@@ -91,7 +91,7 @@ theorem goAwayFirst_tstate (s : State) (c : Nat) (d : Bytes) : (s.goAwayFirst c 
 
 /-- what `goAwayKill` does to the stream at index `i` -/
 theorem goAwayKill_get (s : State) (id up i : Nat) (x : Strm) (hx : s.streams[i]? = some x) :
-    (s.goAwayKill id up).streams[i]? =
+    (s.goAwayKill id up).1.streams[i]? =
       some (if s.activeCount ≠ 0 ∧ isVictim id up x = true then closeF (some cUnavailable) cUnavailable (markF x) else x) := by
   unfold State.goAwayKill
   simp only []
@@ -104,58 +104,76 @@ theorem goAwayKill_get (s : State) (id up i : Nat) (x : Strm) (hx : s.streams[i]
     rw [goAway_victims_get (s := { s with prevGoAwayID := id }) (hx := hx)]
     simp [h0]
 
-@[simp] theorem goAwayKill_tstate (s : State) (id up : Nat) : (s.goAwayKill id up).tstate = s.tstate :=
-  by
-    have h := mono_goAwayKill s id up
-    unfold State.goAwayKill
-    simp only []
-    split
-    · rfl
-    · generalize hm : State.markVictims _ _ _ = m
-      have hmt : m.tstate = s.tstate := by rw [← hm]; rfl
-      have : ∀ n, (m.closeVictims id up n).tstate = m.tstate := by
-        intro n
-        induction n with
-        | zero => rfl
-        | succ n ih => unfold State.closeVictims; simp only []; splits <;> simp [ih]
-      rw [this, hmt]
+/-- `goAwayKill` reports an error exactly when there is no active stream -/
+theorem goAwayKill_err (s : State) (id up : Nat) : (s.goAwayKill id up).2 = (s.activeCount == 0) := by
+  unfold State.goAwayKill
+  simp only []
+  have hac : ({ s with prevGoAwayID := id } : State).activeCount = s.activeCount := activeCount_congr rfl
+  rw [hac]
+  split <;> simp_all
 
-@[simp] theorem goAwayKill_ga (s : State) (id up : Nat) : (s.goAwayKill id up).goAwayClosed = s.goAwayClosed :=
-  by
-    unfold State.goAwayKill
-    simp only []
-    split
-    · rfl
-    · generalize hm : State.markVictims _ _ _ = m
-      have hmt : m.goAwayClosed = s.goAwayClosed := by rw [← hm]; rfl
-      have : ∀ n, (m.closeVictims id up n).goAwayClosed = m.goAwayClosed := by
-        intro n
-        induction n with
-        | zero => rfl
-        | succ n ih => unfold State.closeVictims; simp only []; splits <;> simp [ih]
-      rw [this, hmt]
+theorem closeVictims_tstate (m : State) (id up n : Nat) : (m.closeVictims id up n).tstate = m.tstate := by
+  induction n with
+  | zero => rfl
+  | succ n ih => unfold State.closeVictims; simp only []; splits <;> simp [ih]
+
+theorem closeVictims_ga (m : State) (id up n : Nat) : (m.closeVictims id up n).goAwayClosed = m.goAwayClosed := by
+  induction n with
+  | zero => rfl
+  | succ n ih => unfold State.closeVictims; simp only []; splits <;> simp [ih]
+
+@[simp] theorem goAwayKill_tstate (s : State) (id up : Nat) : (s.goAwayKill id up).1.tstate = s.tstate := by
+  unfold State.goAwayKill
+  simp only []
+  split
+  · rfl
+  · simp only [closeVictims_tstate]; rfl
+
+@[simp] theorem goAwayKill_ga (s : State) (id up : Nat) : (s.goAwayKill id up).1.goAwayClosed = s.goAwayClosed := by
+  unfold State.goAwayKill
+  simp only []
+  split
+  · rfl
+  · simp only [closeVictims_ga]; rfl
 
 /-- states the transport can be in: any event sequence from a fresh transport (any configuration) -/
-def Reach (s : State) : Prop := ∃ hs mc mh es, s = run (init hs mc mh) es
+def Reach (s : State) : Prop := ∃ ec hs mc mh es, s = run (init ec hs mc mh) es
 
 theorem Reach.run {s : State} (h : Reach s) (es : List Ev) : Reach (run s es) := by
-  obtain ⟨a, b', c, es0, rfl⟩ := h
-  refine ⟨a, b', c, es0 ++ es, ?_⟩
-  induction es0 generalizing a b' c with
+  obtain ⟨ec, a, b', c, es0, rfl⟩ := h
+  refine ⟨ec, a, b', c, es0 ++ es, ?_⟩
+  generalize init ec a b' c = t
+  induction es0 generalizing t with
   | nil => rfl
-  | cons e es0 ih =>
-    simp only [List.cons_append, GrpcModel.ClientConn.run]
-    generalize (step (init a b' c) e).1 = t
-    clear ih
-    induction es0 generalizing t with
-    | nil => rfl
-    | cons e' es0 ih2 => simp only [List.cons_append, GrpcModel.ClientConn.run]; exact ih2 _
+  | cons e' es0 ih2 => simp only [List.cons_append, GrpcModel.ClientConn.run]; exact ih2 _
 
 /-- a transport that has seen a GOAWAY is never `reachable` -/
 theorem Reach.ga_notReachable {s : State} (h : Reach s) (hg : s.goAwayClosed = true) : s.tstate ≠ .reachable := by
-  obtain ⟨a, b', c, es, rfl⟩ := h
-  rcases (mono_run (init a b' c) es).gaNew hg with h0 | h1
+  obtain ⟨ec, a, b', c, es, rfl⟩ := h
+  rcases (mono_run (init ec a b' c) es).gaNew hg with h0 | h1
   · simp [init] at h0
   · exact h1
+
+theorem closeP1_streams (s : State) (e : Bool) :
+    (s.closeP1 e).streams = if s.tstate = .closing then s.streams else s.streams.map snapF := by
+  unfold State.closeP1
+  split
+  · rfl
+  · simp only []
+    split <;> simp
+@[simp] theorem put_readerDone (s : State) (it : Item) : (s.put it).readerDone = s.readerDone := by
+  unfold State.put; split <;> rfl
+theorem closeP1_readerDone (s : State) (e : Bool) : (s.closeP1 e).readerDone = s.readerDone := by
+  unfold State.closeP1
+  split
+  · rfl
+  · simp only []
+    split <;> simp [State.notify]
+theorem closeP1_tstate (s : State) (e : Bool) : (s.closeP1 e).tstate = .closing := by
+  unfold State.closeP1
+  split
+  · assumption
+  · simp only []
+    split <;> simp
 
 end GrpcProofs.Lemmas.ClientConn
